@@ -4,7 +4,7 @@ from props.m1common import rng_for, is_err
 import sx
 
 PID = "C17"
-KERNELS = ['K_compared']   # translated from /repo on every run, tied to the model by coq/Gen/<name>_eq.v
+KERNELS = ['K_compared', 'K_event_copy']   # translated from /repo on every run, tied to the model by coq/Gen/<name>_eq.v
 RUNNER = "impl_m4.py"
 N = {"quick": 2500, "thorough": 80000}
 VM_CROSSCHECK = True
